@@ -20,7 +20,7 @@ for pid in ids:
                 "text": "Static analysis of /repo's type-checked source and go/ssa form (nothing is executed). Decides, for every path / call site / implementation, these structural clauses, each a necessary condition of the property: " + d["decided"] + " It does NOT decide the behaviour as a whole: " + d["not_decided"],
                 "design_ref": "DESIGN.md section 4, " + pid,
             },
-            "level_note": "Trusted base: go/types + go/ssa (x/tools v0.29.0) model of the program; rule tables in /verif/sa (anchors resolved through types; undecided or unresolved anchors fail). Only the named clauses are decided; value-level behaviour is out of reach of this technique.",
+            "level_note": "Trusted base: go/types + go/ssa (x/tools v0.29.0) model of the program; rule tables in /verif/sa (anchors resolved through types; undecided or unresolved anchors fail). Only the named clauses are decided; value-level behaviour is out of reach of this technique. When the tree declares functions that are not in sa/inventory.txt their same-package calls are inlined before the analysis (vendored x/tools inliner plus a flattening pass, every step re-type-checked; DESIGN 9.9): that pass is trusted to preserve behaviour.",
             "technique": d.get("technique") or "static analysis: custom go/ssa rules (order-predicate truth tables, dominance/must-pass-through, lockset, key-format injectivity, taint)",
         })
     else:
